@@ -6,6 +6,7 @@ import (
 	"io"
 	"net/http"
 	"net/url"
+	"sort"
 	"strings"
 
 	"google.golang.org/protobuf/encoding/protojson"
@@ -13,6 +14,7 @@ import (
 	"google.golang.org/protobuf/reflect/protoreflect"
 
 	"verif/explore"
+	"verif/ref/wire"
 	"verif/report"
 )
 
@@ -263,7 +265,7 @@ func c07LongQuery(key, val string, at int) []string {
 
 func runC07(c *Ctx) {
 	r := c.Run
-	r.Rule("every path-bindable field of ComplexRequest (15 scalar kinds, enum, wrappers; top-level and nested) × rules {no body, body '*', body 'nested'} × 2 captured values (thorough: every path-safe value) × every other boundary value as competitor (thorough: in every accepted spelling) delivered through the query (proto name, JSON name, twice, mixed, among other keys, inside 17-parameter queries of mixed nesting depth at three positions, same value again; wrappers also through their inner '.value' field), the body (JSON, protobuf, ± unrelated fields) and both; distinct = (field, rule, competitor channel) classes")
+	r.Rule("every path-bindable field of ComplexRequest (15 scalar kinds, enum, wrappers; top-level and nested) × rules {no body, body '*', body 'nested'} × 2 captured values (thorough: every path-safe value) × every other boundary value as competitor (thorough: in every accepted spelling) delivered through the query (proto name, JSON name, twice, mixed, among other keys, inside 17-parameter queries of mixed nesting depth at three positions, same value again; wrappers also through their inner '.value' field), the body (JSON, protobuf, ± unrelated fields) and both; a WebSocket rule with a path variable and body '*' (6 things sent before the first message × whole/fragmented message × 3 queries); distinct = (field, rule, competitor channel) classes")
 	r.Assume("a request that is refused with an error (status >= 400, handler not invoked) also keeps the path value authoritative")
 	e0, err := newC03Env()
 	if err != nil {
@@ -300,9 +302,86 @@ func runC07(c *Ctx) {
 			r.Sample(*tc)
 		}
 	})
+	c07WebSocket(c)
+}
+
+// c07WebSocket: the same law on a WebSocket rule with a path variable and body "*"
+// (websocket /ws/pv/{s} on the bidi method): whatever the client sends before or inside its
+// first message, the first message the handler receives carries the path value in s.
+func c07WebSocket(c *Ctx) {
+	r := c.Run
+	ts, err := newTSchema()
+	if err != nil {
+		panic(err)
+	}
+	m, impl, err := ts.newMux()
+	if err != nil {
+		panic(err)
+	}
+	evil := []byte(`{"s":"from-body","b":"eA=="}`)
+	ping := wire.WSClientFrame(true, 0x9, []byte("p"), [4]byte{1, 2, 3, 4})
+	prefixes := map[string][]byte{
+		"nothing":               nil,
+		"an empty text frame":   wsText(nil),
+		"two empty frames":      append(wsText(nil), wsText(nil)...),
+		"a ping":                ping,
+		"an empty object":       wsText([]byte(`{}`)),
+		"an empty binary frame": wire.WSClientFrame(true, 0x2, nil, [4]byte{4, 3, 2, 1}),
+	}
+	var names []string
+	for k := range prefixes {
+		names = append(names, k)
+	}
+	sort.Strings(names)
+	for _, pn := range names {
+		for _, frag := range []int{1, 2} {
+			for _, q := range []string{"", "s=from-query", "s=from-query&n=5"} {
+				frames := append(append([]byte{}, prefixes[pn]...), wsFrag(evil, frag)...)
+				frames = append(frames, wsClose(1000, "")...)
+				impl.reset(hScript{RecvN: 3})
+				res := doWS(m, "/ws/pv/from-path", q, nil, frames, nil)
+				r.Eval(1)
+				key := fmt.Sprintf("websocket path variable: first sends %s, then the message in %d frame(s), query %q", pn, frag, q)
+				cs := map[string]any{"kind": "websocket", "route": "websocket /ws/pv/{s} body *", "before_first_message": pn, "frames_of_message": frag, "query": q}
+				if res.Panicked {
+					r.Violation(report.Violation{Oracle: "panic", Key: "panic " + key, Case: cs, Note: res.Panic})
+					continue
+				}
+				bad := ""
+				// only the first message of the stream is demanded (google.api.http does not say how
+				// URL bindings apply to later messages of a stream; larking applies them to the first)
+				if len(impl.log.Recv) > 0 {
+					if sv := impl.log.Recv[0].ProtoReflect().Get(ts.req.Fields().ByName("s")).String(); sv != "from-path" {
+						bad = fmt.Sprintf("the first message delivered to the handler has s=%q, the path says \"from-path\" (all: %v)", sv, impl.log.Recv)
+					}
+				}
+				if bad != "" {
+					r.Outcome("FAIL:path-value-replaced")
+					r.Violation(report.Violation{Oracle: "path-value-replaced", Key: "path-value-replaced " + key, Case: cs, Note: bad})
+					continue
+				}
+				if len(impl.log.Recv) == 0 {
+					r.Outcome("websocket:rejected")
+				} else {
+					r.Outcome("websocket:delivered")
+				}
+				r.Distinct("websocket|" + pn)
+			}
+		}
+	}
 }
 
 func replayC07(c *Ctx, v report.Violation) {
+	if strings.Contains(v.Key, "websocket path variable") {
+		sub := *c
+		sub.Run = report.NewRun("C07", "quick", 0, "exploration")
+		c07WebSocket(&sub)
+		fmt.Printf("replay: websocket family re-run -> %d violations\n", sub.Run.NumViolations())
+		if sub.Run.NumViolations() > 0 {
+			c.Run.Violation(report.Violation{Oracle: v.Oracle, Key: v.Key, Case: v.Case, Note: "still violated"})
+		}
+		return
+	}
 	var tc c07Case
 	if !remarshal(v.Case, &tc) {
 		fmt.Println("replay: cannot decode case")
